@@ -488,7 +488,7 @@ for _j in JOBS:
 import copy as _copy
 _CFG_JOBS = ["ecb_encrypt", "ecb_decrypt", "set_tk1", "set_tk2", "set_tk3", "xor_tk1"]
 _cfgs = [(w, u, e) for w in (0, 1) for u in (0, 1) for e in (0, 1) if (w, u, e) != (1, 1, 1)]
-_quick_cfgs = {(0, 1, 1), (1, 0, 1), (0, 0, 0)}
+_quick_cfgs = {(0, 1, 1), (1, 0, 1), (0, 0, 0), (1, 0, 0)}    # (1,0,0): the 64-bit big-endian paths (round-2 seeded change C12-mantis-swap-modes-alpha-bigendian-64 lives only there)
 for (w, u, e) in _cfgs:
     tag = "@w%du%de%d" % (w, u, e)
     dfs = ["SKINNY_C_VERIF=1", "SKINNY_VERIF_64BIT=%d" % w, "SKINNY_VERIF_UNALIGNED=%d" % u, "SKINNY_VERIF_LITTLE_ENDIAN=%d" % e]
